@@ -75,7 +75,7 @@ SOUP = [
     "9007199254740992", "-9007199254740992", "99999999999999999999", HUGE, "-" + HUGE, HUGE + ":", ":" + HUGE, BIG, "-" + BIG, BIG + ".5", "1e" + "9" * 30,
     "'a'", '"a"', "''", '""', "'a\\'b'", '"a\\"b"', "'\\u0041'", "'\\ud83d\\ude00'", "'\\ud800'", "'\\x'",
     "'\\\\'", "'\n'", "'a\tb'", "'\\u12'", "'\\uZZZZ'",
-    "/a/", "/a/i", "/(/", "/[/", "/a/x", "/a+/ims", "/.*/", "/*/", "/\\/", "/(?P<n>a)(?P<n>b)/", "/a{2,1}/", "/(?i)a/", "/a{99999999999}/", "/a{1,99999999999}/", "'a{99999999999}'", "'('", "'[a'", "'a{2,1}'",
+    "/a/", "/a/i", "/(/", "/[/", "/a/x", "/a+/ims", "/.*/", "/*/", "/\\/", "/(?P<n>a)(?P<n>b)/", "/a{2,1}/", "/(?i)a/", "/a{99999999999}/", "/a{1,99999999999}/", "/(?a)(?u)a/", "/(?L)a/", "'(?a)(?u)a'", "'(?L)a'", "/(?a)a/a", "/(?u)a/a", "'a{99999999999}'", "'('", "'[a'", "'a{2,1}'",
     ":", "::", "1:", ":1", "1:2", "1:2:3", "-1:", "::-1", "::0", "-:", "1e2:", ":-", "1:" + BIG, BIG + ":",
     " ", "\t", "\n",
 ]
@@ -96,9 +96,109 @@ def _alarm(signum, frame):
     raise Hang()
 
 
+# ---- watchdog for hangs inside C code (the regex engine holds the GIL and ignores signals):
+# the current case is kept in a small memory-mapped file, and faulthandler's C-level watchdog thread
+# kills the worker when no guarded call has completed for WD_SECONDS.  The parent (vf.run.run_tasks)
+# then calls on_worker_death(), which re-runs that one case alone in a subprocess with a longer limit
+# and reports a hang only if it reproduces.
+WD_SECONDS = 25
+_WD = {"n": 0, "mm": None, "trace": None, "pid": None}
+
+
+def _wd_paths(pid):
+    import os
+    from ..run import ROOT
+    d = os.path.join(ROOT, "scratch")
+    os.makedirs(d, exist_ok=True)
+    return os.path.join(d, "c06-%d.cur" % pid), os.path.join(d, "c06-%d.trace" % pid)
+
+
+def _wd_note(api, case):
+    import faulthandler
+    import json
+    import mmap
+    import os
+    if os.environ.get("VF_NO_WATCHDOG"):
+        return
+    pid = os.getpid()
+    if _WD["pid"] != pid:
+        cur, trace = _wd_paths(pid)
+        with open(cur, "wb") as f:
+            f.write(b"\0" * 65536)
+        fh = open(cur, "r+b")
+        _WD.update(n=0, mm=mmap.mmap(fh.fileno(), 65536), trace=open(trace, "w"), pid=pid)
+    blob = json.dumps({"api": api, "case": case}, default=repr).encode("utf-8")[:65000]
+    mm = _WD["mm"]
+    mm[0:8] = b"%08d" % len(blob)
+    mm[8:8 + len(blob)] = blob
+    if _WD["n"] % 64 == 0:
+        faulthandler.dump_traceback_later(WD_SECONDS, exit=True, file=_WD["trace"])
+    _WD["n"] += 1
+
+
+def _wd_done():
+    """called when a task finishes normally: disarm and remove the per-process files"""
+    import faulthandler
+    import os
+    if _WD["pid"] == os.getpid():
+        faulthandler.cancel_dump_traceback_later()
+        for p in _wd_paths(os.getpid()):
+            try:
+                os.remove(p)
+            except OSError:
+                pass
+        _WD["pid"] = None
+
+
+def on_worker_death(pid, task, exitcode):
+    """vf.run hook: a worker died without a result.  If its last guarded call can be read back and it
+    hangs again when run alone (60 s), that is a termination violation; anything else is a harness error."""
+    import json
+    import os
+    import subprocess
+    import sys
+    from ..run import ROOT
+    cur, trace = _wd_paths(pid)
+    if not os.path.exists(cur):
+        return None
+    try:
+        raw = open(cur, "rb").read()
+        n = int(raw[:8])
+        rec = json.loads(raw[8:8 + n].decode("utf-8"))
+    except Exception:  # noqa: BLE001
+        return None
+    finally:
+        for p in (cur, trace):
+            try:
+                os.remove(p)
+            except OSError:
+                pass
+    st = Stats()
+    case = rec["case"]
+    rdir = os.path.join(ROOT, "scratch")
+    probe = os.path.join(rdir, "c06-hang-probe-%d.json" % pid)
+    json.dump({"case": case}, open(probe, "w"))
+    env = dict(os.environ, VF_NO_WATCHDOG="1")
+    try:
+        subprocess.run([os.path.join(ROOT, "check"), "C06", "--replay", probe], cwd=ROOT, env=env, timeout=60,
+                       stdout=subprocess.DEVNULL, stderr=subprocess.DEVNULL)
+        st.excluded["worker killed by the watchdog but the case finishes when run alone (not reported)"] += 1
+    except subprocess.TimeoutExpired:
+        st.fail("hang:%s" % rec["api"], case, "%s did not finish: the worker was stopped by the watchdog after %d s without progress, and the same "
+                "call run alone in a fresh process was still running after 60 s" % (rec["api"], WD_SECONDS))
+    finally:
+        try:
+            os.remove(probe)
+        except OSError:
+            pass
+    st.notes.append({"task": task["name"], "worker_died": exitcode})
+    return st
+
+
 def guarded(stats: Stats, api, case, fn, allowed):
     """Run fn(); record anything but `allowed` exception classes.  Returns ("ok", v) | ("err", exc)."""
     stats.ev()
+    _wd_note(api, case)
     signal.signal(signal.SIGALRM, _alarm)
     signal.setitimer(signal.ITIMER_REAL, 20.0)
     try:
@@ -241,7 +341,7 @@ def t_queries(seed, n):
 
 # ------------------------------------------------------------------ every registered function x every kind of argument value
 
-TYPE_VALUES = [None, True, False, 0, 1, -1, 1.5, "", "a", "abc", "number", "(", "a{99999999999}", [], [1], ["a"], ["number"], [[1]],
+TYPE_VALUES = [None, True, False, 0, 1, -1, 1.5, "", "a", "abc", "number", "(", "a{99999999999}", "(?a)(?u)a", "(?L)a", [], [1], ["a"], ["number"], [[1]],
                {}, {"a": 1}, {"number": 1}]
 
 
@@ -480,6 +580,21 @@ def t_patches(seed, n):
 
 
 # ------------------------------------------------------------------ interface
+
+
+def _finishing(fn):
+    import functools
+
+    @functools.wraps(fn)
+    def w(*a, **k):
+        try:
+            return fn(*a, **k)
+        finally:
+            _wd_done()
+    return w
+
+
+t_queries, t_pointers, t_patches, t_deep, t_functions = map(_finishing, (t_queries, t_pointers, t_patches, t_deep, t_functions))
 
 
 def tasks(tier, seed):
